@@ -946,6 +946,24 @@ impl TextSelectionOperator {
         }
     }
 
+    // Is this operator negated?
+    pub fn negate(&self) -> bool {
+        match self {
+            Self::Equals { negate, .. }
+            | Self::Overlaps { negate, .. }
+            | Self::Embeds { negate, .. }
+            | Self::Embedded { negate, .. }
+            | Self::Before { negate, .. }
+            | Self::After { negate, .. }
+            | Self::Precedes { negate, .. }
+            | Self::Succeeds { negate, .. }
+            | Self::SameBegin { negate, .. }
+            | Self::SameEnd { negate, .. }
+            | Self::InSet { negate, .. }
+            | Self::SameRange { negate, .. } => *negate,
+        }
+    }
+
     pub fn as_str(&self) -> &'static str {
         match self {
             Self::Equals { .. } => "EQUALS",
@@ -2142,128 +2160,114 @@ impl<'store> FindTextSelectionsIter<'store> {
     /// The reference text selection is always in the subject position for the associated [`TextSelectionOperator`] (`operator()`)
     /// The boolean returns the direction of iteration (true = forward, false = backwards)
     fn init_textseliters(&mut self) {
+        // Every candidate for which the test can succeed must lie in the range chosen here: the
+        // range is over the begin of the candidates when iterating forward, and over their end when
+        // iterating backwards. All ranges are expressed in terms of the leftmost begin and the
+        // rightmost end of the reference set, as the test must hold for all items in the set.
+        // A single iterator is used, so no candidate is ever returned twice.
+        let textlen = self.resource.textlen();
+        let refbegin = self.refset.begin().unwrap();
+        let refend = self.refset.end().unwrap();
+        if self.operator.negate() {
+            //a negated test may succeed anywhere in the text
+            self.textseliters.push((self.resource.iter(), true));
+            return;
+        }
         match self.operator {
             TextSelectionOperator::Embeds { .. } => {
-                for reftextselection in self.refset.iter() {
-                    self.textseliters.push((
-                        self.resource
-                            .range(reftextselection.begin(), reftextselection.end()),
-                        true,
-                    ));
-                }
+                //(the end of the range is inclusive, a zero-width text selection may begin there)
+                self.textseliters
+                    .push((self.resource.range(refbegin, refend + 1), true));
             }
             TextSelectionOperator::SameBegin { .. } => {
-                self.textseliters.push((
-                    self.resource.range(
-                        self.refset.begin().unwrap(),
-                        self.refset.begin().unwrap() + 1,
-                    ),
-                    true,
-                ));
+                self.textseliters
+                    .push((self.resource.range(refbegin, refbegin + 1), true));
             }
             TextSelectionOperator::SameEnd { .. } => {
                 self.textseliters.push((
-                    self.resource
-                        .range(self.refset.end().unwrap(), self.refset.end().unwrap() + 1),
+                    self.resource.range(refend, refend + 1),
                     false, //search backwards! end must be in range above
                 ));
             }
             TextSelectionOperator::After { limit, .. } => {
-                //self comes after found items, so find items before self:
+                //self comes after found items, so find items that end before self begins:
                 let begin = if let Some(limit) = limit {
-                    if limit >= self.refset.begin().unwrap() {
-                        0
-                    } else {
-                        self.refset.begin().unwrap() - limit
-                    }
+                    refbegin.saturating_sub(limit)
                 } else {
                     0
                 };
                 self.textseliters.push((
-                    self.resource.range(begin, self.refset.begin().unwrap()),
-                    true,
+                    self.resource.range(begin, refbegin + 1),
+                    false, //search backwards! end must be in range above
                 ));
             }
             TextSelectionOperator::Succeeds {
                 allow_whitespace, ..
             } => {
+                //find items that end where self begins (or a bit of whitespace before that)
+                let begin = if allow_whitespace {
+                    refbegin.saturating_sub(WHITESPACE_LIMIT)
+                } else {
+                    refbegin
+                };
                 self.textseliters.push((
-                    self.resource.range(
-                        self.refset.begin().unwrap(),
-                        self.refset.begin().unwrap()
-                            + if allow_whitespace {
-                                WHITESPACE_LIMIT + 1
-                            } else {
-                                1
-                            },
-                    ),
+                    self.resource.range(begin, refbegin + 1),
                     false, //search backwards!! end must be in range above
                 ));
             }
             TextSelectionOperator::Before { limit, .. } => {
-                //self comes before found items, so find items after self:
+                //self comes before found items, so find items that begin after self ends:
                 let end = if let Some(limit) = limit {
-                    self.refset.end().unwrap() + limit
+                    refend + limit
                 } else {
-                    self.resource.textlen()
+                    textlen
                 };
                 self.textseliters
-                    .push((self.resource.range(self.refset.end().unwrap(), end), true));
+                    .push((self.resource.range(refend, end + 1), true));
             }
             TextSelectionOperator::Precedes {
                 allow_whitespace, ..
             } => {
-                self.textseliters.push((
-                    self.resource.range(
-                        self.refset.end().unwrap(),
-                        self.refset.end().unwrap()
-                            + if allow_whitespace {
-                                WHITESPACE_LIMIT + 1
-                            } else {
-                                1
-                            },
-                    ),
-                    true,
-                ));
+                let end = if allow_whitespace {
+                    refend + WHITESPACE_LIMIT
+                } else {
+                    refend
+                };
+                self.textseliters
+                    .push((self.resource.range(refend, end + 1), true));
             }
             TextSelectionOperator::Embedded {
                 limit: Some(limit), ..
             } => {
-                let halfway = self.resource.textlen() / 2;
-                for reftextselection in self.refset.iter() {
-                    if reftextselection.begin() <= halfway {
-                        let begin = if reftextselection.begin() > limit {
-                            reftextselection.begin() - limit
-                        } else {
-                            0
-                        };
-                        self.textseliters
-                            .push((self.resource.range(begin, reftextselection.end()), true));
-                    } else {
-                        let mut end = reftextselection.end() + limit;
-                        if end > self.resource.textlen() {
-                            end = self.resource.textlen();
-                        }
-                        self.textseliters.push((
-                            self.resource.range(reftextselection.end(), end),
-                            false, //search backwards!!
-                        ));
-                    }
+                //found items begin at most limit before self
+                self.textseliters.push((
+                    self.resource
+                        .range(refbegin.saturating_sub(limit), refbegin + 1),
+                    true,
+                ));
+            }
+            TextSelectionOperator::Embedded { .. } => {
+                //found items begin before (or where) self begins and end after (or where) self ends
+                if refbegin <= textlen / 2 {
+                    self.textseliters
+                        .push((self.resource.range(0, refbegin + 1), true));
+                } else {
+                    self.textseliters.push((
+                        self.resource.range(refend, textlen + 1),
+                        false, //search backwards!!
+                    ));
                 }
             }
-            TextSelectionOperator::Overlaps { .. } | TextSelectionOperator::Embedded { .. } => {
-                let halfway = self.resource.textlen() / 2;
-                for reftextselection in self.refset.iter() {
-                    if reftextselection.begin() <= halfway {
-                        self.textseliters
-                            .push((self.resource.range(0, reftextselection.end()), true));
-                    } else {
-                        self.textseliters.push((
-                            self.resource
-                                .range(reftextselection.end(), self.resource.textlen()),
-                            false, //search backwards!!
-                        ));
-                    }
+            TextSelectionOperator::Overlaps { .. } => {
+                //found items begin before (or where) self ends and end after (or where) self begins
+                if refbegin <= textlen / 2 {
+                    self.textseliters
+                        .push((self.resource.range(0, refend + 1), true));
+                } else {
+                    self.textseliters.push((
+                        self.resource.range(refbegin, textlen + 1),
+                        false, //search backwards!!
+                    ));
                 }
             }
             _ => {
